@@ -120,6 +120,14 @@ def file_mutations(text, ctxseen=None):
                         continue
                     ctxseen.add(key)
                 yield 'xml-self-member%d' % m.start(), text[:m.start(1)] + owner[-1] + text[m.end(1):]
+            # every innermost <entry> element (a rule, an address, a group, a service) removed as a whole: what refers to it stays
+            for m in re.finditer(r'<entry name="([^"]*)"[^<>]*>(?:(?!<entry\b).)*?</entry>', text, re.S):
+                if ctxseen is not None:
+                    key = 'dropentry|' + NUM.sub('N', m.group(1))
+                    if key in ctxseen:
+                        continue
+                    ctxseen.add(key)
+                yield 'xml-drop-entry%d' % m.start(), text[:m.start()] + text[m.end():]
     else:
         lines = text.split('\n')
         if lines and lines[-1] == '':
